@@ -747,6 +747,7 @@ pub fn run_prop<P: Prop>(prop: P, opts: &Opts) -> ! {
             let first_history: RefCell<Vec<P::Case>> = RefCell::new(Vec::new());
             let prev_case: RefCell<Option<P::Case>> = RefCell::new(None);
             let mixed_fail: RefCell<Option<(P::Case, Vec<Failure>)>> = RefCell::new(None);
+            let mixed_count = std::cell::Cell::new(0u64);
             let cfg = Config {
                 cases: per as u32,
                 rng_seed: RngSeed::Fixed(seed),
@@ -774,6 +775,7 @@ pub fn run_prop<P: Prop>(prop: P, opts: &Opts) -> ! {
                         None => Vec::new(),
                     };
                     for m in mixes {
+                        mixed_count.set(mixed_count.get() + 1);
                         {
                             let mut wd = window.borrow_mut();
                             if wd.len() == HISTORY_WINDOW {
@@ -890,13 +892,15 @@ pub fn run_prop<P: Prop>(prop: P, opts: &Opts) -> ! {
                 }
             }
             let st = stats.into_inner();
-            (st, invocations.get(), failed.get())
+            (st, invocations.get(), failed.get(), mixed_count.get())
         }));
     }
     let mut generated = 0u64;
+    let mut follow_ups = 0u64;
     for h in handles {
         match h.join() {
-            Ok((st, inv, failed)) => {
+            Ok((st, inv, failed, mixed_n)) => {
+                follow_ups += mixed_n;
                 if !failed && inv < per {
                     println!("INCONCLUSIVE: a worker executed {inv} of {per} cases (runner executed too few cases)");
                     std::process::exit(2);
@@ -1069,6 +1073,12 @@ pub fn run_prop<P: Prop>(prop: P, opts: &Opts) -> ! {
     cov.insert("samples".into(), samples.into());
     cov.insert("operations_checked".into(), total.subs.into());
     cov.insert("generated".into(), generated.into());
+    if follow_ups > 0 {
+        cov.insert(
+            "follow_up_cases".into(),
+            serde_json::json!({"count": follow_ups, "what": "included in 'generated': before every 4th generated case of a worker, cases built from the previous and the current case (current left operand with the previous right operand and vice versa) are evaluated on the same thread, so that state kept between calls meets a related second call"}),
+        );
+    }
     cov.insert("corpus_replayed".into(), corpus_replayed.into());
     cov.insert("labels".into(), serde_json::to_value(&total.labels).unwrap());
     cov.insert("excluded_known".into(), serde_json::to_value(&total.excluded_known).unwrap());
